@@ -91,6 +91,42 @@ class Effects:
                 return ("$param", e.id)
         return None
 
+    def returns_alias(self, fi):
+        """(param, field) pairs such that the function may return the very container held in that field of that parameter"""
+        if not hasattr(self, "_ra"):
+            self._ra = {}
+        if fi.qname in self._ra:
+            return self._ra[fi.qname]
+        self._ra[fi.qname] = set()
+        out = set()
+        ft = self.w.types(fi)
+        for n in ast.walk(fi.node):
+            if isinstance(n, ast.Return) and n.value is not None:
+                vals = [n.value]
+                if isinstance(n.value, ast.IfExp):
+                    vals = [n.value.body, n.value.orelse]
+                for v in vals:
+                    if isinstance(v, ast.Name):
+                        for a in ast.walk(fi.node):
+                            if isinstance(a, ast.Assign) and any(isinstance(t, ast.Name) and t.id == v.id for t in a.targets):
+                                vals.append(a.value)
+                        continue
+                    c = self._container_of(fi, ft, v, {})
+                    if c is not None and c[0] not in ("$store", "$param") and isinstance(c[0], ast.Name) and c[0].id in fi.params:
+                        out.add((c[0].id, c[1]))
+                    if isinstance(v, ast.Call):
+                        for tg in self.w.resolve_call(ft, v):
+                            if tg.func is not None and tg.func.qname != fi.qname:
+                                am = self.w.arg_map(tg, v)
+                                for (pp, fld) in self.returns_alias(tg.func):
+                                    a = am.get(pp)
+                                    if isinstance(a, ast.Name) and a.id in fi.params:
+                                        out.add((a.id, fld))
+        if fi.kind == "property":
+            out = set()  # a property *is* the field; access through it is tracked as the field itself
+        self._ra[fi.qname] = out
+        return out
+
     def _known_other(self, ft, e) -> bool:
         t = ft.type_of(e)
         return t is not None and t not in (T_NODE, T_OPT)
@@ -124,6 +160,15 @@ class Effects:
                 c = self._container_of(fi, ft, n.value, {})
                 if c is not None and c[0] not in ("$param",):
                     aliases[n.targets[0].id] = c
+                elif isinstance(n.value, ast.Call):
+                    # the callee may hand back a node's own container (C11-R2: a retained alias that is written later)
+                    for tg in w.resolve_call(ft, n.value):
+                        if tg.func is not None:
+                            am = w.arg_map(tg, n.value)
+                            for (pp, fld) in self.returns_alias(tg.func):
+                                a = am.get(pp)
+                                if a is not None:
+                                    aliases[n.targets[0].id] = (a, fld)
 
         def emit(kind, field, recv_expr, node):
             roots = self._roots_of(fi, recv_expr) if recv_expr is not None else {"G"}
